@@ -29,6 +29,20 @@ CHECKS.update({
    text="Complete over the 155 kinds x every subset of all fields x the four option combinations (1.7M dumps in the quick tier): the dump must parse as one Go composite literal whose type, keys and contents equal the reflection walk.",
    note="Trusted: go/parser, strconv.Unquote.", ref="§C16"),
 })
+CHECKS.update({
+ "C01": dict(cat="exploration", tech="small-scope exhaustive input exploration (all strings up to n symbols x 15 scanner contexts x versions x callback) + every byte-prefix of the LR corpus + every (LALR state, terminal) cell, under a deterministic step budget",
+   text="Every string of <= 3 symbols over a 67-symbol alphabet (all byte literals of scanner.rl, class representatives, mode-switching fragments) from each of 15 start contexts under 7.4/5.6/7.2 x {callback, nil} (thorough: + 4 symbols under 7.4, <= 5 symbols over the 28-symbol core), <= 2 core symbols under all 12 versions; every byte-prefix of every rule-level corpus program (thorough 2-path) in three line-terminator layouts; every (state, terminal) cell of both LALR automata; a scaling ladder. No panic, scanner restarts + Lex calls <= 64+16*len, input buffer unchanged, err == nil. Inputs longer than the bounds are not explored.",
+   note="Trusted: the overlay hooks (Tick after `_again:`, Point in Parser.Lex) see every scanner restart; eight crash/hang root causes found by this check were repaired (fixed: lines in KNOWN_FINDINGS.txt).", ref="§C01"),
+ "C10": dict(cat="exploration", tech="exhaustive exploration of the sentences both LALR automata accept (rules, 2-paths, trivia and lexeme deviations), trees under 5.6 and 7.4 compared field by field",
+   text="Every program of the E-lr corpora of both grammars (+1-deviations of trivia and lexemes, specials) that both reference LR drivers accept on the tokens the real scanner returns, minus a token-level superset of uniform-variable-syntax and yield-as-operator patterns: the 5.6 and 7.4 trees must be identical in kinds, nesting, values, tokens, free-floating tokens and positions, and both error lists equal.",
+   note="Trusted: the exclusion list for constructs whose meaning differs. Known findings: PHP 5 goto label span and `list()` empty item (both asserted by the suite).", ref="§C10"),
+ "C13": dict(cat="exploration", tech="explicit-state history exploration: every sequence of {print, dump, dump+tokens+positions, traverse, resolve} up to a depth on every corpus tree, states = deep reflection snapshots",
+   text="For every rule-level and 2-path corpus tree of both grammars (with and without trivia, trees with errors included) and seven resolver/interpolation programs: every operation sequence of length <= 3 (thorough 5) is replayed on a fresh tree; after each step the output must equal the fresh-tree output of that operation and the deep snapshot (all fields, slice len/cap, pointer graph, bytes) must be unchanged - exactly one reachable state per tree.",
+   note="Trusted: reflection snapshot covers exported fields of everything reachable from the root.", ref="§C13"),
+ "C17": dict(cat="exploration", tech="exhaustive exploration of LR-corpus programs (nullable combinations) x whitespace layouts x lexeme alternatives through format+print+re-parse",
+   text="Every valid corpus program of both grammars (rules, 2-paths, all present/absent combinations of optional children; thorough 3-paths) in four whitespace layouts and with every alternative lexeme: format+print must not panic, must re-parse without errors to the same structural fingerprint, be idempotent, and be identical across layouts.",
+   note="Known finding: programs that leave PHP mode (inline HTML, close tag, halt-compiler tail, shebang) re-parse with extra/missing StmtNop/StmtInlineHtml; ten formatter defects found by this check were repaired.", ref="§C17"),
+})
 NA = {}
 
 checks = []
